@@ -199,8 +199,8 @@ class Diffs(Cycles):
         n = 2000 if tier == "quick" else 12000
         for i in range(n):
             r = rng.random()
-            c = fc.gen_case(rng, floats=(i % 10 == 9), variables=(False if r < 0.95 else None), dup=(r < 0.30),
-                            max_sources=3, profile="shape")
+            c = c07.gen_case2(rng, floats=(i % 10 == 9), variables=(False if r < 0.95 else None), dup=(r < 0.30),
+                              max_sources=3, profile="shape")
             yield c
 
     def shrink(self, case):
@@ -223,6 +223,11 @@ CORPUS = [
     _c("d = yes\n  .type = bool\n  .multiple = True\n", ["d = no\nd = 1\nd = 0\n"]),
     _c("c = x *y z\n  .type = choice\nm = *x y *z\n  .type = choice(multi=True)\n", ["c = z\nm = y\n"]),
     _c("a = None\n  .type = int\nb = Auto\n  .type = str\n", ["a = Auto\nb = None\n"]),
+    # the quoted one-item lists "Auto" / "None" / "auto" differ from the special values Auto / None they stand beside
+    _c("refine {\n  labels = Auto\n    .type = strings\n  tags = Auto\n  w = Auto\n    .type = floats\n  n = 3\n    .type = int\n}\n",
+       ["refine.labels = \"Auto\"\nrefine.tags = \"auto\"\nrefine.n = 3\n"]),
+    _c("a = None\n  .type = strings\nb = None\nc = Auto\n  .type = strings\n  .multiple = True\n", ["a = \"None\"\nb = \"NONE\"\nc = \"Auto\"\nc = \"none\"\nc = Auto\n"]),
+    _c("t = None\n  .type = strings\n", ["t = \"Refinement of the high resolution data set,\nsecond attempt with tighter restraints\" \"run 7\" \"2024\"\n"]),
     # F7c: the source repeats a master-provided instance AFTER a new one: the difference drops it, merging back reorders
     _c("d = 1\n  .type = int\n  .multiple = True\nd = 2\n  .type = int\n  .multiple = True\n", ["d = 3\nd = 2\n"]),
     # F7a territory (outside the domain)
